@@ -426,6 +426,28 @@ func genCase(r *vrand.Rand, i int) *vcase {
 		c.handler = oh.Error(nil, c.err)
 		c.desc = fmt.Sprintf("Error(plain %s %q status=%d)", c.shape, c.err.Error(), c.status)
 	}
+	// a third of the cases go through the direct-write wrappers (WriteData / Success / WriteError / WriteCplxError)
+	if r.Chance(1, 3) {
+		switch {
+		case c.err != nil:
+			e := c.err
+			c.handler = http.HandlerFunc(func(w http.ResponseWriter, rq *http.Request) { oh.WriteError(nil, w, rq, e) })
+			c.desc += " via WriteError"
+		case c.kind == kComplex:
+			code, msg := oh.SystemError(c.code), strings.TrimSuffix(strings.SplitN(c.desc, ",", 2)[1], "})")
+			if um, err := strconv.Unquote(msg); err == nil {
+				c.handler = http.HandlerFunc(func(w http.ResponseWriter, rq *http.Request) { oh.WriteCplxError(nil, w, rq, code, um) })
+				c.desc += " via WriteCplxError"
+			}
+		case c.value == nil && c.kind != kUnmarshalable:
+			c.handler = http.HandlerFunc(func(w http.ResponseWriter, rq *http.Request) { oh.Success(nil, w, rq) })
+			c.desc += " via Success"
+		default:
+			v := c.value
+			c.handler = http.HandlerFunc(func(w http.ResponseWriter, rq *http.Request) { oh.WriteData(nil, w, rq, v) })
+			c.desc += " via WriteData"
+		}
+	}
 	return c
 }
 
